@@ -4,7 +4,7 @@ use crate::core::{DynScenario, Tier};
 use crate::scen;
 
 pub fn all_scenarios() -> Vec<Box<dyn DynScenario>> {
-    vec![Box::new(scen::c16::C16), Box::new(scen::c14::C14), Box::new(scen::c02::C02), Box::new(scen::c03::C03), Box::new(scen::c05::C05), Box::new(scen::c06::C06), Box::new(scen::c07::C07), Box::new(scen::c08::C08), Box::new(scen::c09::C09), Box::new(scen::c10::TdScen { mode: 0 }), Box::new(scen::c10::TdScen { mode: 1 })]
+    vec![Box::new(scen::c16::C16), Box::new(scen::c14::C14), Box::new(scen::c02::C02), Box::new(scen::c03::C03), Box::new(scen::c05::C05), Box::new(scen::c06::C06), Box::new(scen::c07::C07), Box::new(scen::c08::C08), Box::new(scen::c09::C09), Box::new(scen::c10::TdScen { mode: 0 }), Box::new(scen::c10::TdScen { mode: 1 }), Box::new(scen::c12::C12)]
 }
 
 pub fn find_scenario(name: &str) -> Option<Box<dyn DynScenario>> {
@@ -142,6 +142,19 @@ pub fn property(id: &str) -> Option<PropSpec> {
             assumptions: vec!["the accuracy constant C was calibrated once on the unchanged tree (3x the largest observed ratio) and is frozen in sim/src/scen/c10.rs", "nodes with a foreign digest in their ancestry are exempt from the exact-data clause (their data is not known), not from size / conservation"],
             components_real: vec!["TDigestMut update / merge / compress / rank / serialize / deserialize"],
             components_stub: vec!["exactly-once network", "framed checkpoint store + WAL", "ForeignWriter", "sorted exact data (oracle)"],
+        },
+        "C12" => PropSpec {
+            id: "C12",
+            level: "exploration",
+            parts: vec![p("c12_layout", REL, BOTH)],
+            rule: "one run = one family (HLL, CPC, theta, Bloom, Count-Min over all eight counter types, Frequent Items i64/u64/String, t-digest) and configuration, a Writer history of 2-10 steps (crafted coupons / row_cols / hashes through the hooks, hashed items, weighted items, value streams, a union or merge with a second sketch of another lg_k / size, trim / invert) with an Emit after PRNG-chosen steps and at the end; every emitted image is decoded by the independent speccodec reader (which rejects what a Java/C++ reader would reject or misread: preamble sizes, serial version, family, flags, field order, endianness, total length exactly as the header implies) and the decoded abstract state is compared with the reference model of the stream: HLL (mode, coupons or nibble/6-bit/8-bit registers, cur_min, num_at_cur_min, aux pairs, kxq, hip, OOO flag), CPC (lg_k, fic, flags, HIP fields, matrix decompressed with decode tables derived from the encode tables), theta v3 and v4 (entries, theta, flags, seed hash, minimal delta width and count bytes), Bloom, Count-Min, Frequent Items (empty / no-counters / regular forms), t-digest (empty / single / regular). Non-trivial = an image was emitted; distinct = distinct (family, probes = image kinds reached, fault kinds) keys.",
+            assumptions: vec![
+                "the transcription of the format in DESIGN.md Appendix A (trusted base; a disagreement is triaged as repository defect or codec mistake, never as a known finding if it is the codec's)",
+                "CPC entropy-coding table DATA (encode tables and encode permutations only) is taken from the repository's compression_data.rs; a corruption of an encode table together with its decode table is outside what this check can see",
+                "for theta the abstract state is read from the mutable sketch's own accessors (C04 is not claimed)",
+            ],
+            components_real: vec!["every serialize method: HllSketch, CompactThetaSketch::serialize / serialize_compressed, CpcSketch, BloomFilter, CountMinSketch<T>, FrequentItemsSketch<T>, TDigestMut", "the update / union / merge paths that build the states"],
+            components_stub: vec!["ForeignReader: independent decoder per family (sim/src/speccodec)", "reference models of the streams"],
         },
         _ => return None,
     })
